@@ -125,6 +125,10 @@ func main() {
 				mode = "int"
 				n = strings.TrimSuffix(n, ":int")
 			}
+			if strings.HasSuffix(n, ":real") {
+				mode = "real"
+				n = strings.TrimSuffix(n, ":real")
+			}
 			results[i] = runHarness(prog, pkg, n, mode, *solver, *timeout, known, *maxSteps, *maxPaths, *samples, *smtlog, *workers)
 		}(i, strings.TrimSpace(n))
 	}
